@@ -72,7 +72,7 @@ def gen_history(rng):
         ops.append({"src": "(vector-set! S %d (string-copy %s)) 'ok" % (i, lit(model[i])), "k": "init", "t": i, "a": [list(model[i])]})
     for opi in range(n):
         op = rng.weighted([("set", 8), ("substring", 3), ("append", 3), ("copy!", 3), ("fill", 2), ("fromlist", 2), ("utf8", 2), ("copy", 2),
-                           ("cmp", 2), ("affix", 3), ("case", 1), ("write-out", 4), ("read-in", 4), ("vector", 1)])
+                           ("cmp", 2), ("affix", 3), ("map2", 3), ("case", 1), ("write-out", 4), ("read-in", 4), ("vector", 1)])
         i, j, k = rng.below(4), rng.below(4), rng.below(4)
         Si, Sj, Sk = "(vector-ref S %d)" % i, "(vector-ref S %d)" % j, "(vector-ref S %d)" % k
         if op == "set":
@@ -131,6 +131,18 @@ def gen_history(rng):
             a, b = model[i], model[j]
             want = "(%s %s %s)" % ("#t" if a == b else "#f", "#t" if a < b else "#f", "#t" if a == list(model[i]) else "#f")
             ops.append({"src": "(list (string=? %s %s) (string<? %s %s) (equal? %s (string-copy %s)))" % (Si, Sj, Si, Sj, Si, Si), "k": "cmp", "a": [i, j]})
+        elif op == "map2":
+            # string-map / string-for-each over two or three strings of different lengths and character widths: the walk ends
+            # with the string that has the fewest CHARACTERS
+            three = rng.chance(1, 3)
+            strs = [Si, Sj] + ([Sk] if three else [])
+            idxs = [i, j] + ([k] if three else [])
+            pick = rng.below(len(strs))
+            params = "abc"[:len(strs)]
+            t = rng.below(4)
+            ops.append({"src": "(let ((n 0) (last #f)) (vector-set! S %d (string-map (lambda (%s) %s) %s)) (string-for-each (lambda (%s) (set! n (+ n 1)) (set! last %s)) %s) (list n (and last (char->integer last))))"
+                               % (t, " ".join(params), params[pick], " ".join(strs), " ".join(params), params[pick], " ".join(strs)),
+                        "k": "map2", "t": t, "mut": True, "a": [idxs, pick]})
         elif op == "affix":
             # prefix / suffix / search relations between two strings of the history (substring and append operations make related pairs),
             # through both libraries that implement them ((chibi string) and SRFI 130)
@@ -225,6 +237,12 @@ def replay_model(ops):
             elif k == "cmp":
                 x, y = m[a[0]], m[a[1]]
                 exp["want"] = "(%s %s #t)" % ("#t" if x == y else "#f", "#t" if x < y else "#f")
+            elif k == "map2":
+                idxs, pick = a
+                n = min(len(m[x]) for x in idxs)
+                res = list(m[idxs[pick]][:n])
+                exp["want"] = "(%d %s)" % (n, str(res[-1]) if n else "#f")
+                m[t] = res
             elif k == "affix":
                 x, y = m[a[0]], m[a[1]]
                 pre = "#t" if y[:len(x)] == x else "#f"
@@ -306,7 +324,7 @@ def execute(case, run):
             if s_op["exc"]:
                 V.append(Verdict("op-error", "op %d %s raised %s" % (i, o["src"][:120], s_op["res"][:200]), {"op": o["k"]}))
                 break
-            if o["k"] in ("cmp", "affix"):
+            if o["k"] in ("cmp", "affix", "map2"):
                 checks += 1
                 if s_op["res"] != exp["want"]:
                     V.append(Verdict("model-mismatch:" + o["k"], "op %d %s -> %s, model %s" % (i, o["src"][:160], s_op["res"], exp["want"]), {}))
